@@ -349,6 +349,7 @@ def scenario_check(s, sc, info, oracle, classify=None, accept_errors=True):
             s.rep.inconc('%s: output structure depends on symbolic text: %s' % (sc.name, e))
             continue
         env = Env(None, m.allowed)
+        env.lines = lines
         checks = oracle(env, items, info, m)
 
         def on_violation(c, model, m=m):
@@ -370,8 +371,10 @@ def scenario_check(s, sc, info, oracle, classify=None, accept_errors=True):
                 s.rep.inconc('ENCODING-MISMATCH %s: SMI produced output but native zeep failed (rc=%s) for %s' % (key, rc, params))
                 return
             try:
-                nitems, _ = RO.parse_output([txt])
-                nchecks = oracle(Env(model), nitems, info, None)
+                nitems, nlines = RO.parse_output([txt])
+                nenv = Env(model)
+                nenv.lines = nlines
+                nchecks = oracle(nenv, nitems, info, None)
             except Exception as e:
                 s.rep.inconc('%s: cannot evaluate the oracle on the native output: %r' % (key, e))
                 return
@@ -995,3 +998,138 @@ def c03(tier):
                               'attribute = true and no prefix; field order = declaration order (C02 oracle); struct-level prefix/rename/namespaces name the component. Lexical forms, '
                               'escaping and occurrence on the wire are outside the claim.',
                   extra_assumptions=['yaserde 0.12 semantics of prefix / namespaces / rename / attribute are trusted as documented'])
+
+
+# ================================================================================================ C05
+
+FN_RE = re.compile(r'\s*pub async fn ((?:r#)?\w+)\((&self, )?req: ([\w:]+)(?:, credentials: [^)]*)?\) -> error::SoapResult<(.*)> \{\s*$')
+
+
+def parse_fn(sig):
+    m = FN_RE.match(sig)
+    if not m:
+        return ('?', False, sig.strip(), '')
+    return (m.group(1), bool(m.group(2)), m.group(3), m.group(4))
+
+
+def wsdl_oracle(env, items, info, m, lines=None):
+    out = []
+    structs = [it for it in items if it.kind == 'struct']
+    fns = [smap(parse_fn, it.sig) for it in items if it.kind == 'async_fn']
+
+    def struct_named(n):
+        return O.find_structs(items, n, env.allowed)
+
+    def field(st, fname):
+        for fa, fd in st.fields:
+            if RO.one(fd)[0] == fname:
+                return fa, fd
+        return None
+
+    svc = env.v(info.svc)
+    svcs = struct_named(svc)
+    out.append(O.Check('service-struct', 'a client struct named after the WSDL service (found %d)' % len(svcs), len(svcs) == 1))
+    methods = [f for f in fns if RO.one(f)[1]]
+    out.append(O.Check('method-count', 'exactly one client method per operation (%d methods, %d operations)' % (len(methods), len(info.ops)), len(methods) == len(info.ops)))
+    for op in info.ops:
+        opname = env.v(op['name'])
+        want_fn = env.map(O.field_ident if False else (lambda s_: F.snake(s_)), op['name'])
+        cand = []
+        for f in methods:
+            eq = RO.sym_eq(smap(lambda t: t[0], f), want_fn, env.allowed)
+            if eq is True or (isinstance(eq, SymVal) and any(eq.values())):
+                cand.append((f, eq))
+        tag = RO.one(opname)
+        out.append(O.Check('method-snake-case', 'operation %s: one method named in snake_case (candidates %d; methods are %s)' % (tag, len(cand), [RO.one(f)[0] for f in methods]),
+                           len(cand) == 1 and (cand[0][1] is True or cand[0][1]) if len(cand) == 1 else False))
+        if len(cand) != 1:
+            continue
+        f = cand[0][0]
+        req_t = smap(lambda t: t[2], f)
+        res_t = smap(lambda t: t[3], f)
+        envs = struct_named(req_t)
+        out.append(O.Check('request-envelope-defined', 'operation %s: the method takes %s, which must be a struct defined in the output (found %d)' % (tag, RO.one(req_t), len(envs)),
+                           len(envs) == 1 and RO.sym_eq(envs[0].name, req_t, env.allowed) if len(envs) == 1 else False))
+        if len(envs) == 1:
+            out += envelope_checks(env, items, info, op, envs[0], tag, 'input', struct_named, field)
+        # output
+        has_out = env.v(op['has_output'])
+        out_ok = smap(lambda h, r: (r != '()') == bool(h), has_out, res_t, allowed=env.allowed)
+        out.append(O.Check('response-envelope-iff-output', 'operation %s: the method returns a response envelope iff the operation has an output' % tag, out_ok))
+        r1 = RO.one(res_t)
+        if r1 != '()':
+            oenvs = struct_named(res_t)
+            out.append(O.Check('response-envelope-defined', 'operation %s: the method returns %s, which must be a struct defined in the output (found %d)' % (tag, r1, len(oenvs)),
+                               len(oenvs) == 1 and RO.sym_eq(oenvs[0].name, res_t, env.allowed) if len(oenvs) == 1 else False))
+            if len(oenvs) == 1:
+                out += envelope_checks(env, items, info, dict(op, body_el=op['out_el'], headers=[]), oenvs[0], tag, 'output', struct_named, field)
+    # the address
+    if lines is not None:
+        locs = [l for l in lines if isinstance(RO.one(l), str) and re.match(r'\s*location: "', RO.one(l))]
+        ok = len(locs) == 1 and RO.sym_eq(smap(lambda l: re.match(r'\s*location: "(.*)"\.to_string\(\),\s*$', l).group(1) if re.match(r'\s*location: "(.*)"\.to_string\(\),\s*$', l) else None, locs[0]),
+                                          native.url_parse(info.wsdl.location), env.allowed) if len(locs) == 1 else False
+        out.append(O.Check('service-address', 'the client posts to the address of the WSDL port', ok))
+    return out
+
+
+def envelope_checks(env, items, info, op, envst, tag, direction, struct_named, field):
+    out = []
+    b = field(envst, 'body')
+    out.append(O.Check('envelope-has-body', '%s %s envelope has a body member' % (tag, direction), b is not None))
+    if b is None:
+        return out
+    ba, bd = b
+    out.append(O.Check('envelope-body-is-soap-body', '%s %s envelope: body member is soapenv:Body' % (tag, direction),
+                       RO.sym_eq(O.attr_get(ba, 'rename'), 'Body', env.allowed)))
+    bstructs = struct_named(smap(lambda t: t[1], bd))
+    out.append(O.Check('body-struct-defined', '%s %s: body type %s defined once (found %d)' % (tag, direction, RO.one(bd)[1], len(bstructs)), len(bstructs) == 1))
+    if len(bstructs) == 1:
+        bs = bstructs[0]
+        out.append(O.Check('body-one-element', '%s %s: Body holds exactly one element (%d fields)' % (tag, direction, len(bs.fields)), len(bs.fields) == 1))
+        if len(bs.fields) == 1:
+            fa, fd = bs.fields[0]
+            el = env.v(op['body_el'])
+            out.append(O.Check('body-element-qname', '%s %s: the Body member is renamed to the element of the bound part' % (tag, direction),
+                               RO.sym_eq(O.attr_get(fa, 'rename'), el, env.allowed)))
+            ftype = smap(lambda t: t[1], fd)
+            tname = smap(lambda t: t.split('::')[-1], ftype)
+            tmod = smap(lambda t: t.split('::')[0] if '::' in t else None, ftype)
+            want = env.map(pascal, op['body_el'])
+            out.append(O.Check('body-element-type', '%s %s: the Body member is typed by the struct generated for that element (type %s)' % (tag, direction, RO.one(ftype)),
+                               RO.sym_eq(tname, want, env.allowed)))
+            defs = [it for it in struct_named(tname) if RO.one(it.module) == RO.one(tmod)]
+            out.append(O.Check('body-element-type-defined', '%s %s: %s must be defined in module %s' % (tag, direction, RO.one(tname), RO.one(tmod)), len(defs) == 1))
+    h = field(envst, 'header')
+    want_h = len(op['headers']) > 0
+    out.append(O.Check('header-iff-bound', '%s %s: a Header member exists iff header parts are bound' % (tag, direction), (h is not None) == want_h))
+    if h is not None and want_h:
+        hstructs = struct_named(smap(lambda t: t[1], h[1]))
+        out.append(O.Check('header-struct-defined', '%s: header type defined once (found %d)' % (tag, len(hstructs)), len(hstructs) == 1))
+        if len(hstructs) == 1:
+            hs = hstructs[0]
+            out.append(O.Check('header-member-count', '%s: one Header member per bound header part (%d fields, %d parts)' % (tag, len(hs.fields), len(op['headers'])),
+                               len(hs.fields) == len(op['headers'])))
+            got = sorted(RO.one(O.attr_get(fa, 'rename')) for fa, fd in hs.fields)
+            out.append(O.Check('header-element-qname', '%s: every Header member is renamed to the element its part references (renames %s, elements %s)' % (tag, got, sorted(op['headers'])),
+                               got == sorted(op['headers'])))
+            for fa, fd in hs.fields:
+                t = RO.one(fd)[1]
+                mm = re.match(r'Option<(?:(\w+)::)?(\w+)>$', t)
+                okt = bool(mm) and mm.group(2) in [pascal(x) for x in op['headers']] and len([it for it in struct_named(mm.group(2)) if RO.one(it.module) == mm.group(1)]) == 1
+                out.append(O.Check('header-element-type', '%s: Header member type %s must be Option<struct generated for the header element>' % (tag, t), okt))
+    return out
+
+
+def c05(tier):
+    def body(s):
+        s.functions.update(n for n in s.ctx.bodies if re.search(r'Soap(Binding|Service|Port|Message|Operation)|read_(soap|body|header|port)|map_to_rust_node|write_soap|write_async', n) and '::tests::' not in n)
+        fams = [F.w_ops(tier, 0), F.w_ops(tier, 1), F.w_ops(tier, 2)]
+        for sc, info in fams:
+            def oracle(env, items, info, m, _sc=sc):
+                lines = getattr(env, 'lines', None)
+                return wsdl_oracle(env, items, info, m, lines)
+            scenario_check(s, sc, info, oracle, classify=lambda c, p, i: '')
+    return run_e2('C05', tier, body, bounds='WSDL with two operations; the first with operation name over %d case styles, body element name over 3 styles, part name equal to / different from the '
+                  'element name, parts= present/absent (single-part message), output present/absent, service name, 0..2 bound header parts. Identifier agreement between the method signature, '
+                  'the envelope, Body and Header structs and the element structs is decided per path by z3. Outside: the serialized envelope (yaserde at run time), rpc/encoded bindings, '
+                  'multi-part bodies without parts=.' % (5 if tier == 'thorough' else 4))
